@@ -769,7 +769,7 @@ static int print_graph_rstack(struct uftrace_data *handle, struct uftrace_task_r
 	if (rstack->type == UFTRACE_ENTRY) {
 		int len = strlen(symname);
 
-		if (symname[len - 1] != ')' || rstack->more ||
+		if (len == 0 || symname[len - 1] != ')' || rstack->more ||
 		    (len > 10 && !strcmp(symname + len - 10, "operator()")))
 			str_mode |= NEEDS_PAREN;
 	}
